@@ -66,6 +66,12 @@ func calculateNextQuota(
 		minPercent = 60
 	}
 	expectedAllocatePercent := upstreamUsed.RequestLevel*(100-minPercent)/100 + minPercent
+	if expectedAllocatePercent == 0 {
+		// The request level of the upstream is computed from what the instances report. A negative
+		// or absurdly large reported usage can bring this percentage to zero (e.g. level -150 with
+		// minPercent 60); it is a divisor below, so never let it be zero.
+		expectedAllocatePercent = 1
+	}
 
 	// targetLevel is expected utilization of single client
 	targetLevel := expectTotalLevel * 100 / expectedAllocatePercent
